@@ -14,7 +14,7 @@ REQUIRED = ['dfa_words_up_to_n', 'nfa_words_up_to_n', 'pda_words_up_to_n', 'tm_w
 EXHAUSTIVE_NOTE = ('all total DFAs <=3 states/<=2 symbols, all NFAs <=2 states/<=2 symbols+eps, all regexp trees <=5 nodes, all grammars with {S,A},{a,b}, <=2 rules: each '
                    'with every bound n in 0..4; PDAs, TMs and larger objects are sampled')
 RULE = ('cases are (object, n): objects of the six kinds from the generators of C01/C05/C07/C09/C11 (enumerated small scopes, seeded random, hostile families, shipped examples), '
-        'bounds n in {0,1,2,3,4} (up to 6 thorough), TM step budgets {0,1,5,50,1000}, PDA closure limits {3,10,50,1000}. The deciding oracle is the property\'s own definition: '
+        'bounds n in {0,1,2,3,4} (up to 6 thorough), TM step budgets {0,1,5,50,1000}, PDA closure limits {3,10,50,1000} and, on PDAs with a large finite closure, {1500,5000,100000}. The deciding oracle is the property\'s own definition: '
         'the library\'s acceptance test filtered over an independent enumeration of all words of length <= n; for PDAs equality is demanded only when the closure monitor saw '
         'no truncated closure, otherwise inclusion in the exact language. distinct = (object, n, settings); non-trivial = n >= 1 and the enumerated set is neither empty nor all words')
 ASSUMPTIONS = [
@@ -83,7 +83,7 @@ def check_case(rec, case):
     ns = case['ns']
     R = case['ref']
     rec.case = case
-    if kind == 'pda' and case['limit'] > 10:
+    if kind == 'pda' and case['limit'] > 10 and not case.get('keep_limit'):
         # a PDA whose epsilon closures explode makes the enumerator itself infeasible for large
         # limits (limit^2 work per symbol and configuration): keep those to small limits
         _, small = pd.true_eps_closure(R, [(R[4], ())], 40)
@@ -289,6 +289,12 @@ def gen_cases(rec, rng, tier):
     for i, (cls, RPa) in enumerate(pdag.concatenation_ambiguous_stacks()):
         if i % 4 == rec.shard % 4:
             yield {'kind': 'pda', 'cls': 'pda_' + cls, 'ref': RPa, 'ns': [0, 1, 2, 3], 'limit': 50, 'eps': ''}
+    # closure limits ABOVE the default (round 13, C02_m: an enumerator that freezes the limit at import time): a finite closure of
+    # 2^(k+1) configurations is complete under the configured limit, so equality with the acceptance test is required
+    for j, (k, lim) in enumerate(((10, 5000), (10, 100000), (9, 1500), (11, 100000))[:4 if thorough else 3]):
+        if rec.shard % 4 == j % 4:
+            yield {'kind': 'pda', 'cls': 'pda_large_finite_closure_limit_above_default', 'ref': pdag.guess_bits(k), 'ns': [0, 1, 2], 'limit': lim,
+                   'eps': ('', '_')[j % 2], 'keep_limit': True}
     if rec.shard == 3:
         for (name, RP, eps) in pdag.shipped_pdas(env.REPO):
             yield {'kind': 'pda', 'cls': 'shipped_' + name, 'ref': RP, 'ns': [0, 1, 2, 3, 4], 'limit': 1000, 'eps': eps}
